@@ -16,29 +16,43 @@
 (* integers are 32-bit (the MC configuration checks that both agree).       *)
 EXTENDS Integers, Sequences
 
+\* Apalache type annotations (comments for TLC):
+\* @typeAlias: genesis = { bsl: Int, bel: Int, bks: Int, bkt: Int, ssl: Int, sel: Int, sks: Int, skt: Int };
+SlotTimeAliases == TRUE
+
 Eras == {"byron", "shelley"}
 
 \* ---- derived genesis quantities ----
+\* @type: ($genesis, Str) => Int;
 SlotLen(g, era)    == IF era = "byron" THEN g.bsl ELSE g.ssl
+\* @type: ($genesis, Str) => Int;
 EpochSecs(g, era)  == IF era = "byron" THEN g.bel ELSE g.sel
+\* @type: ($genesis, Str) => Int;
 EpochSlots(g, era) == EpochSecs(g, era) \div SlotLen(g, era)      \* epoch size in slots
+\* @type: ($genesis, Int) => Str;
 EraOf(g, s)        == IF s < g.sks THEN "byron" ELSE "shelley"
 
 \* first epoch of the shelley era, as the code computes it (shelley_start_epoch)
+\* @type: ($genesis) => Int;
 StartEpoch(g) == (g.sks * g.bsl) \div g.bel
 
 \* A genesis record describes a real chain when epochs are whole numbers of
 \* slots, the hard fork sits on a Byron epoch boundary and the Shelley clock
 \* continues the Byron clock.  The four well-known networks are meant to be
 \* of this kind; the properties below are claimed for such records only.
+\* @type: ($genesis) => Bool;
 Divisible(g)       == g.bsl > 0 /\ g.ssl > 0 /\ g.bel % g.bsl = 0 /\ g.sel % g.ssl = 0
                       /\ EpochSlots(g, "byron") > 0 /\ EpochSlots(g, "shelley") > 0
+\* @type: ($genesis) => Bool;
 ForkOnBoundary(g)  == g.sks % EpochSlots(g, "byron") = 0
+\* @type: ($genesis) => Bool;
 ClockContinuous(g) == g.skt = g.bkt + (g.sks - g.bks) * g.bsl
+\* @type: ($genesis) => Bool;
 WellFormed(g)      == Divisible(g) /\ ForkOnBoundary(g) /\ g.bks = 0
 
 \* ---- the three conversions (one operator per public entry point) ----
 \* GenesisValues::absolute_slot_to_relative
+\* @type: ($genesis, Int) => <<Int, Int>>;
 ToRel(g, s) ==
     IF s < g.sks
     THEN <<s \div EpochSlots(g, "byron"), s % EpochSlots(g, "byron")>>
@@ -46,28 +60,35 @@ ToRel(g, s) ==
            (s - g.sks) % EpochSlots(g, "shelley")>>
 
 \* compute_absolute_slot_within_era, as coded (seconds / slot length)
+\* @type: (Int, Int, Int, Int) => Int;
 WithinEra(e, sub, epochSecs, slotLen) == (e * epochSecs) \div slotLen + sub
 
 \* GenesisValues::relative_slot_to_absolute
+\* @type: ($genesis, Int, Int) => Int;
 ToAbs(g, e, sub) ==
     IF e < StartEpoch(g)
     THEN WithinEra(e, sub, g.bel, g.bsl)
     ELSE WithinEra(StartEpoch(g), 0, g.bel, g.bsl) + WithinEra(e - StartEpoch(g), sub, g.sel, g.ssl)
 
 \* GenesisValues::slot_to_wallclock
+\* @type: ($genesis, Int) => Int;
 Wallclock(g, s) ==
     IF s < g.sks THEN g.bkt + (s - g.bks) * g.bsl
                  ELSE g.skt + (s - g.sks) * g.ssl
 
 \* ---- what C32 states ----
 \* (a) the slot-in-epoch is smaller than the epoch size (in slots) of the slot's era
+\* @type: ($genesis, Int, Int) => Bool;
 SubInRange(g, s, sub) == 0 <= sub /\ sub < EpochSlots(g, EraOf(g, s))
 \* (b) converting back yields the original slot
+\* @type: ($genesis, Int, Int) => Bool;
 RoundTrip(g, s, back) == back = s
 \* (c) the clock advances by the slot length of the era of s between s and s+1
+\* @type: ($genesis, Int, Int, Int) => Bool;
 ClockStep(g, s, t0, t1) == t1 - t0 = SlotLen(g, EraOf(g, s))
 
 \* ---- division-free characterisation of ToRel (used on BigNat values) ----
+\* @type: ($genesis, Int, Int, Int) => Bool;
 RelOK(g, s, e, sub) ==
     IF s < g.sks
     THEN /\ s = e * EpochSlots(g, "byron") + sub
@@ -76,11 +97,16 @@ RelOK(g, s, e, sub) ==
          /\ 0 <= sub /\ sub < EpochSlots(g, "shelley")
 
 \* ---- laws of the specification itself (checked by MCSlotTime) ----
+\* @type: ($genesis, Int) => Bool;
 LawSub(g, s)       == SubInRange(g, s, ToRel(g, s)[2])
+\* @type: ($genesis, Int) => Bool;
 LawRoundTrip(g, s) == ToAbs(g, ToRel(g, s)[1], ToRel(g, s)[2]) = s
+\* @type: ($genesis, Int) => Bool;
 LawRelOK(g, s)     == RelOK(g, s, ToRel(g, s)[1], ToRel(g, s)[2])
+\* @type: ($genesis, Int) => Bool;
 LawClock(g, s)     == Wallclock(g, s + 1) - Wallclock(g, s) = SlotLen(g, EraOf(g, s))
 \* epochs are contiguous: the slot after the last of an epoch opens the next
+\* @type: ($genesis, Int) => Bool;
 LawEpochSucc(g, s) == LET a == ToRel(g, s)  b == ToRel(g, s + 1)
                       IN \/ (b[1] = a[1] /\ b[2] = a[2] + 1)
                          \/ (b[1] = a[1] + 1 /\ b[2] = 0 /\ a[2] = EpochSlots(g, EraOf(g, s)) - 1)
